@@ -54,6 +54,8 @@ def gen_case(cseed: int, tier: str) -> dict[str, Any]:
     feats.discard("map")  # -m is meaningless once the program installs its own mapping
     if w.random() < 0.85:
         feats.discard("far_banks")
+    if w.random() < 0.08:
+        feats.add("big_incbin")
     defines: list[tuple[str, str]] = []
     if w.random() < 0.7:
         feats.add("defines")
@@ -121,7 +123,12 @@ def twin_for(prog: progen.Prog, mapping: str) -> dict[str, Any]:
 
 
 def check_symfile(text: str, prog: progen.Prog, twin: dict[str, Any], timg: ipsref.Image) -> list[tuple[str, str]]:
-    """Returns (sig, msg) problems."""
+    """Returns (sig, msg) problems.
+
+    Every label *definition* made outside loop iterations must appear once: for each label name all
+    of whose definition sites lie outside .for bodies (progen knows), the multiset of (bank, offset)
+    lines carrying that name must equal the multiset of that name's values in the reference run.
+    """
     problems: list[tuple[str, str]] = []
     lines: dict[str, list[tuple[int, int]]] = {}
     for line in text.splitlines():
@@ -133,21 +140,17 @@ def check_symfile(text: str, prog: progen.Prog, twin: dict[str, Any], timg: ipsr
         twin_labels.setdefault(name, []).append(value)
     table = progen.decode_label_table(prog, timg) or {}
     bare_table = {k.split(".")[-1]: v for k, v in table.items()}
-    expected = [n.split(".")[-1] for n in prog.global_labels] + list(prog.local_labels)
-    for name in expected:
-        if name not in twin_labels or len(twin_labels[name]) != 1:
-            continue  # not defined in this run (untaken branch) or defined more than once: no verdict
-        value = twin_labels[name][0]
-        if name in bare_table and bare_table[name] != value & 0xFFFFFF:
-            problems.append(("label_value", f"label {name}: get_all_labels() says {value:#x} but '.dl {name}' emitted {bare_table[name]:#x}"))
+    for name in prog.symfile_label_names():
+        values = twin_labels.get(name, [])
+        if len(values) == 1 and name in bare_table and bare_table[name] != values[0] & 0xFFFFFF:
+            problems.append(("label_value", f"label {name}: get_all_labels() says {values[0]:#x} but '.dl {name}' emitted {bare_table[name]:#x}"))
             continue
-        got = lines.get(name, [])
-        if len(got) != 1:
-            problems.append(("label_count", f"label {name} (defined once, outside loops) appears on {len(got)} lines of the symbol file"))
-            continue
-        bank, off = got[0]
-        if bank != (value >> 16) & 0xFF or off != value & 0xFFFF:
-            problems.append(("label_bank_offset", f"label {name} = {value:#08x} exported as {bank:x}:{off:x}"))
+        want = sorted(((v >> 16) & 0xFF, v & 0xFFFF) for v in values)
+        got = sorted(lines.get(name, []))
+        if len(got) != len(want):
+            problems.append(("label_count", f"label {name} is defined {len(want)} time(s) outside loops but appears on {len(got)} line(s) of the symbol file"))
+        elif got != want:
+            problems.append(("label_bank_offset", f"label {name}: definitions {[f'{b:x}:{o:x}' for b, o in want]} exported as {[f'{b:x}:{o:x}' for b, o in got]}"))
     return problems
 
 
